@@ -200,6 +200,18 @@ pub fn c10_rl(g: &mut Gen) {
     lines.push(format!("rl A it zero : {} l n", vec!["n"; (end + 3 - ones) as usize].join(" ")));
     lines.push(format!("rl A it bits : {} l n", vec!["n"; (end + 3) as usize].join(" ")));
     lines.push(format!("rl A it run : {} n", vec!["n"; runs.len()].join(" ")));
+    // positioned iterators started inside / at the end of / just after runs in every block, then continued across the
+    // following run and block boundaries
+    let stepi = std::cmp::max(1, runs.len() / 40);
+    for (a, l) in runs.iter().step_by(stepi) {
+        for x in [*a, a + l - 1, a + l, a.saturating_sub(1)] {
+            lines.push(format!("rl A it pred {} : n n n N3 n l N9 n n l", x));
+            lines.push(format!("rl A it succ {} : n n n N3 n l N9 n n l", x));
+        }
+    }
+    for r in (0..ones).step_by(std::cmp::max(1, ones as usize / 25)) { lines.push(format!("rl A it sel {} : n n N4 n l n", r)); }
+    let zeros = end + 3 - ones;
+    for r in (0..zeros).step_by(std::cmp::max(1, zeros as usize / 25)) { lines.push(format!("rl A it sel0 {} : n n N4 n l n", r)); }
     g.group(lines);
 }
 
